@@ -60,8 +60,17 @@ class FaultFS(LocalFileSystem):
         return getattr(self._tl, 'chain', ())
 
 
+from fsspec.spec import AbstractFileSystem
+
+# isdir / isfile: fsspec's GENERIC implementations (used by most remote filesystems) go through info() and answer False
+# on any OSError, whereas LocalFileSystem asks os.path directly. The generic ones are used here, so that a transient
+# failure of the nested info() reaches the library as a stale negative answer of isdir()/isfile() through fsspec's own
+# code - the same way exists() behaves. A fault planned on isdir/isfile themselves still raises.
+GENERIC = {'isdir': AbstractFileSystem.isdir, 'isfile': AbstractFileSystem.isfile}
+
+
 def _make(op):
-    base = getattr(LocalFileSystem, op)
+    base = GENERIC.get(op) or getattr(LocalFileSystem, op)
 
     def wrapper(self, *a, **k):
         if not self.armed:
